@@ -50,8 +50,14 @@ def _value_on_group(lit, c):
   return find(lit, c)
 
 
-def corruption_class(lit, c):
-  if _value_on_group(lit, c):
+def _value_on_root_group(d, c):
+  """c puts a value on the root node of a space with two or more elements (whatever edit produced it)."""
+  return (d[0] == 'space' and len(d[1]) >= 2 and isinstance(c, tuple) and len(c) == 2
+          and isinstance(c[1], list) and len(c[1]) == len(d[1]))
+
+
+def corruption_class(lit, c, d=None):
+  if _value_on_group(lit, c) or (d is not None and _value_on_root_group(d, c)):
     return 'value-on-multi-element-space-node'
   fl, fc = D.flat(lit), D.flat(c)
   if any(isinstance(x, int) and not isinstance(x, bool) and x < 0 for x in fc):
@@ -146,7 +152,7 @@ def spec_item(rec, item):
         rec.evals += 1
         rec.stat(f'corruption:{how}:{r or "ACCEPTED"}')
         if r is None:
-          rec.viol(f'invalid-accepted:{how}/{corruption_class(x, norm)}', f'{d!r}: {norm!r} (one step from {x!r}) violates '
+          rec.viol(f'invalid-accepted:{how}/{corruption_class(x, norm, d)}', f'{d!r}: {norm!r} (one step from {x!r}) violates '
                    f'the constraints but is accepted by {how}', dict(tr, dna=norm)); bad = True
   # --- random generation only returns members (thorough: all of them)
   got = set()
